@@ -385,6 +385,19 @@ func runC14(c *Ctx) {
 						if _, isPar := bo.X.(*ssa.Parameter); isPar {
 							return n
 						}
+						// the parameter lives in a cell because a closure captures it and the function assigns it again
+						// (go/ssa spills it; --meta's capture rewrite): a load of a cell into which the parameter is stored
+						if ld, isL := bo.X.(*ssa.UnOp); isL && ld.Op == token.MUL {
+							if al, isA := ld.X.(*ssa.Alloc); isA {
+								for _, r := range refs(al) {
+									if st, isS := r.(*ssa.Store); isS && st.Addr == ssa.Value(al) {
+										if _, fromPar := st.Val.(*ssa.Parameter); fromPar {
+											return n
+										}
+									}
+								}
+							}
+						}
 					}
 				}
 			}
